@@ -271,6 +271,14 @@ func expected(d Desc, state string, r *Req) expectation {
 	if !pathKnown(d.Side, d.Tmpl) {
 		return expectation{MustError: true, Reason: "unknown route"}
 	}
+	if strings.HasPrefix(d.Act, "pair:") {
+		// two routed actions named: the handler of the first name runs (pairExecuted); it must be valid in the state, and
+		// the second name must never be what decides
+		if ex := pairExecuted(d.Act); d.Side == "R" && !refAllows(state, ex) {
+			return expectation{MustError: true, AbsentAction: true, Reason: "the request names two actions; the first one, " + ex + ", is served and it is not in the action map of state " + state}
+		}
+		return expectation{}
+	}
 	rt, amb := match(d.Side, d.Method, d.Tmpl, d.Act)
 	if amb {
 		return expectation{}
